@@ -135,6 +135,19 @@ inline Args parseArgs(int argc, char **argv) {
     return a;
 }
 
+inline uint64_t hashBytes(const void *p, size_t n, uint64_t h = 1469598103934665603ULL) {
+    const unsigned char *c = (const unsigned char *)p;
+    for (size_t i = 0; i < n; ++i) {
+        h ^= c[i];
+        h *= 1099511628211ULL;
+    }
+    return h;
+}
+inline uint64_t hashStr(const std::string &s, uint64_t h = 1469598103934665603ULL) {
+    return hashBytes(s.data(), s.size(), h);
+}
+
+
 struct Violation {
     std::string key, detail, replay;
     uint64_t caseIdx;
@@ -153,6 +166,8 @@ struct Reporter {
     std::string curStream; // description of what the current case is (engine specific)
     std::function<std::string()> describeCase; // materialises the current case as JSON
 
+    uint64_t digestXor = 0; // order-independent digest of every result (C17: must not depend on the build)
+    void digest(const std::string &what) { digestXor ^= mix64(curCase + 1, hashStr(what)); }
     uint64_t &counter(const std::string &k) { return counters[k]; }
     void count(const std::string &k, uint64_t d = 1) { counters[k] += d; }
     void sample(const std::string &json, size_t cap = 6) {
@@ -200,6 +215,7 @@ struct Reporter {
         viols.push_back(v);
     }
     void write() {
+        counters["digest_xor"] = digestXor >> 1; // keep it inside a signed 64-bit JSON integer
         counters["distinct_cases"] = distinct.size();
         counters["distinct_states"] = states.size();
         std::string o = "{\n \"counters\": {";
@@ -255,7 +271,11 @@ void forCases(Reporter &R, uint64_t total, const char *tag, F fn) {
         return;
     }
     uint64_t resume = (uint64_t)R.args.geti("resume", 0);
-    for (uint64_t i = R.args.shard; i < total; i += R.args.nshards) {
+    // --x-stride k: only every k-th case of the space (reduced workloads spread over the whole space)
+    uint64_t stride = (uint64_t)R.args.geti("stride", 1);
+    if (stride < 1) stride = 1;
+    for (uint64_t k = R.args.shard; k * stride < total; k += R.args.nshards) {
+        uint64_t i = k * stride;
         if (i < resume) continue;
         R.progress(i, tag);
         fn(i);
@@ -273,18 +293,6 @@ template <class T> std::string vecStr(const T &v) {
     }
     o << "]";
     return o.str();
-}
-
-inline uint64_t hashBytes(const void *p, size_t n, uint64_t h = 1469598103934665603ULL) {
-    const unsigned char *c = (const unsigned char *)p;
-    for (size_t i = 0; i < n; ++i) {
-        h ^= c[i];
-        h *= 1099511628211ULL;
-    }
-    return h;
-}
-inline uint64_t hashStr(const std::string &s, uint64_t h = 1469598103934665603ULL) {
-    return hashBytes(s.data(), s.size(), h);
 }
 
 } // namespace vf
